@@ -82,10 +82,15 @@ type World struct {
 	Skipped        bool // the last operation was skipped because of the list-length cap
 }
 
+// A start "base\x1eref" is a URL parsed with a base (url.ParseRef(base, ref)).
 func NewWorld(start string) *World {
 	w := &World{Start: start, Cfg: mcfg()}
+	base, ref := "", start
+	if i := strings.Index(start, "\x1e"); i >= 0 {
+		base, ref = start[:i], start[i+1:]
+	}
 	var err error
-	if p := safely(func() { w.U, err = url.Parse(start) }); p != "" {
+	if p := safely(func() { w.U, err = url.ParseRef(base, ref) }); p != "" {
 		w.Panic = p
 		return w
 	}
@@ -93,7 +98,7 @@ func NewWorld(start string) *World {
 		w.Dead = true
 		return w
 	}
-	m, o := w.Cfg.Parse(start, nil)
+	m, o := w.Cfg.ParseWithBaseString(base, ref)
 	if o == model.OK {
 		w.M = m
 	}
@@ -315,6 +320,13 @@ var StartURLs = []string{
 	"ftp://u@h:2121/",
 	"http://h/C|/x",
 	"foo://:pw@h/p",
+	// URLs parsed with a base (relative, file and no-scheme states copy parts of the base)
+	"http://h:443/a/b\x1ec",
+	"https://u:p@h:80/a/\x1e?q",
+	"ws://h:21/x#f\x1e",
+	"file:///C:/d/f\x1e..",
+	"foo://h:99/p?q\x1e#f",
+	"http://1.2.3.4:8080/a\x1e//[::2]",
 }
 
 // SetterValues is the per-setter value menu: every early return of the override paths is hit.
@@ -347,7 +359,9 @@ func SetterAlphabet(maxPerSetter int) []Op {
 }
 
 // Resolve references hitting each pointer-copying line of the relative/file states.
-var ResolveRefs = []string{"", "#f", "?q", "x", "/x", "//h2/x", "..", "C:/x", "./", "\\y", "x:y"}
+// (including references that spell out the base's own scheme: "file:d" against a file base and "http:d" against
+// an http base take the special-relative / file-state entry points of the parser)
+var ResolveRefs = []string{"", "#f", "?q", "x", "/x", "//h2/x", "..", "C:/x", "./", "\\y", "x:y", "file:d", "file:?q", "file:", "http:d", "https:d/..", "ws:?q", "ftp:d", "foo:d"}
 
 func ResolveAlphabet() []Op {
 	var ops []Op
